@@ -217,9 +217,12 @@ Inductive ev : Type :=
 | Capture (c : call)     (* `transfer.state.<op>(args)` is evaluated: state object selected, coroutine created *)
 | Start (i : nat)        (* coroutine i starts running: takes the lock if it is free and nobody waits, else queues *)
 | Step                   (* the slow operation the holder is waiting for completes *)
-| Wake.                  (* the first waiter is resumed after a release *)
+| Wake                   (* the first waiter is resumed after a release *)
+| Cancel (i : nat).      (* the task running call i is cancelled (wait_for timeout, shutdown, a task cancelled by an abort):
+                            a waiter leaves the queue; the holder's body is cut at the slow operation it waits in and
+                            `async with` releases the lock *)
 
-Inductive obs : Type := OEdge (a b : st) | ORet (i : nat) (r : bool).
+Inductive obs : Type := OEdge (a b : st) | ORet (i : nat) (r : bool) | OCancelled (i : nat).
 
 Definition obs_edges (l : list edge) : list obs := map (fun e => OEdge (fst e) (snd e)) l.
 
@@ -243,6 +246,11 @@ Fixpoint take (i : nat) (l : list pend) : option (pend * list pend) :=
   | p :: r => if Nat.eqb (p_id p) i then Some (p, r)
               else match take i r with Some (q, r') => Some (q, p :: r') | None => None end
   end.
+
+(* the holder is cancelled while it waits: cancelling gather() cancels the (already cancelled) tasks once more, which
+   ends their clean-up at once; a cancelled exists()/remove() leaves file and local_path as they are *)
+Definition cut (t : transfer) (k : list micro) : transfer :=
+  match k with MCancelWait :: _ => finish_cancel t | _ => t end.
 
 Definition step (redisp : bool) (m : mach) (e : ev) : mach * list obs :=
   match e with
@@ -273,6 +281,20 @@ Definition step (redisp : bool) (m : mach) (e : ev) : mach * list obs :=
       | None, p :: ws => acquire redisp m p ws
       | _, _ => (m, [])
       end
+  | Cancel i =>
+      match m_holder m with
+      | Some h =>
+          if Nat.eqb (h_id h) i
+          then (mkM (cut (m_t m) (h_k h)) (m_next m) (m_created m) None (m_waiters m), [OCancelled i])
+          else match take i (m_waiters m) with
+               | Some (_, ws) => (mkM (m_t m) (m_next m) (m_created m) (m_holder m) ws, [OCancelled i])
+               | None => (m, [])
+               end
+      | None => match take i (m_waiters m) with
+                | Some (_, ws) => (mkM (m_t m) (m_next m) (m_created m) None ws, [OCancelled i])
+                | None => (m, [])
+                end
+      end
   end.
 
 Fixpoint run (redisp : bool) (m : mach) (es : list ev) : mach * list obs :=
@@ -289,7 +311,7 @@ Definition edges_documented (l : list edge) : Prop := forall a b, In (a, b) l ->
 Definition obs_documented (l : list obs) : Prop := forall a b, In (OEdge a b) l -> documented a b = true.
 
 Definition edge_okb (e : edge) : bool := documented (fst e) (snd e).
-Definition obs_okb (o : obs) : bool := match o with OEdge a b => documented a b | ORet _ _ => true end.
+Definition obs_okb (o : obs) : bool := match o with OEdge a b => documented a b | _ => true end.
 
 (* shape of a method body: no state change before the last atom, which is a documented transition *)
 Fixpoint cont_ok (cur : st) (k : list micro) : bool :=
